@@ -1117,6 +1117,12 @@ def clear : M Int := do
   set ({ closes := if vf.source then vf.closes + 1 else vf.closes } : VF)
   return 0
 
+/-- executable form of the state consistency the history-independence theorems assume (`Props/C07.DecWF`); the driver evaluates it
+    on every seekable handle after every call, so the hypothesis is checked on every state the correspondence runs reach -/
+def decWFb (s : VF) : Bool :=
+  (decide (s.ready < STREAMSET) || (decide (0 ≤ s.current_link) && decide (s.current_serialno = s.serialnos[s.current_link.toNat]!))) &&
+  (decide (s.ready ≤ STREAMSET) || s.vd.isSome) && decide (s.ready ≤ INITSET)
+
 def pcmTell (vf : VF) : Int := if vf.ready < OPENED then OV_EINVAL else vf.pcm_offset
 def rawTell (vf : VF) : Int := if vf.ready < OPENED then OV_EINVAL else vf.offset
 
